@@ -196,6 +196,9 @@ func runC16(env *core.Env) {
 			}
 			return
 		}
+		if !contains(req.Args, "--json") {
+			return // the shared catalogue also holds a few requests in text mode; what they print on success is not this property's
+		}
 		atomic.AddInt64(&okCount, 1)
 		v, err := oneJSONValue(res.Out)
 		if err != nil {
@@ -301,6 +304,9 @@ func runC16(env *core.Env) {
 			atomic.AddInt64(&truthChecks, 1)
 			if !sameSet(reported, actual) {
 				lie("edges", keys(reported), keys(actual))
+			} else if len(edges) != len(actual) {
+				// the same edges, but one of them reported more than once: the following read shows it once
+				lie("edges(count)", len(edges), len(actual))
 			}
 		case cls == "prune":
 			ids, _ := m["pruned_ids"].([]interface{})
